@@ -93,11 +93,12 @@ def call(S, op, g, rng=None):
                     arg = [N(it["id"]) for it in op["items"]]
                 else:
                     arg = [(N(it["id"]), A(it["a"], "n")) for it in op["items"]]
-                S.add_nodes_from(arg, **A(op["a"], "n"))
+                S.add_nodes_from(hg.present_ids(arg, rng) if op["fmt"] == 1 else (arg if rng.random() < 0.6 else iter(arg)),
+                                 **A(op["a"], "n"))
             elif name == "remove_node":
                 S.remove_node(N(op["n"]))
             elif name == "remove_nodes_from":
-                S.remove_nodes_from([N(x) for x in op["ns"]])
+                S.remove_nodes_from(hg.present_ids([N(x) for x in op["ns"]], rng))
             elif name in ("set_node_attributes", "set_edge_attributes"):
                 tbl = "n" if name == "set_node_attributes" else "e"
                 L = N if tbl == "n" else E
@@ -124,7 +125,7 @@ def call(S, op, g, rng=None):
             elif name == "remove_simplex_id":
                 S.remove_simplex_id(E(op["e"]))
             elif name == "remove_simplex_ids_from":
-                S.remove_simplex_ids_from([E(x) for x in op["ns"]])
+                S.remove_simplex_ids_from(hg.present_ids([E(x) for x in op["ns"]], rng))
             elif name == "close":
                 S.close()
             elif name == "cleanup":
@@ -170,7 +171,7 @@ def call(S, op, g, rng=None):
 
 def rand_op(rng, j, nn=6):
     from . import drive_hg
-    from .drive_hg import rand_attr, rand_id
+    from .drive_hg import rand_attr, rand_id, rand_item_attr
 
     nodes, edges = j["nodes"], j["edges"]
     names = [
@@ -217,7 +218,7 @@ def rand_op(rng, j, nn=6):
         its = []
         for k in range(rng.choice([0, 1, 2, 2, 3, 4])):
             its.append(item(m=simplex(allow_none=(k == 0)), id=rid() if fmt in (2, 4, 5) else -1,
-                            a=rand_attr(rng) if fmt in (3, 4) else []))
+                            a=rand_item_attr(rng) if fmt in (3, 4) else []))
         if fmt == 5:
             seen, u = set(), []
             for it in its:
